@@ -709,3 +709,17 @@ package yang
 //@     invariant forall k1 string, k2 string :: k1 != k2 && loopentry(has(e.Dir, k1)) && loopentry(has(e.Dir, k2)) ==> loopentry(e.Dir[k1]) != loopentry(e.Dir[k2])
 //@   loop 2
 //@     invariant (forall x *Entry :: kidsOK(x)) && (forall x *Entry :: allocated(x) ==> x.RPC == old(x.RPC) && x.Dir == old(x.Dir))
+
+// ---------------------------------------------------------------------------
+// C19: lock discipline. Every access to a guarded field (and to the contents
+// of the map it holds) happens with the guarding mutex of the same object
+// held -- write-held for writes -- unless the object was allocated in the same
+// call; every function returns with the mutexes in the state it found them.
+//@ lock_property C19
+//@ guarded_by Modules.byNS nsMu
+//@ guarded_by Modules.entryCache entryCacheMu
+//@ guarded_by typeDictionary.dict mu
+//@ write_guarded_by identityDictionary.dict mu
+// Package-level tables that every goroutine reads: written by init only.
+//@ init_only typeMap nameMap aliases knownWords EntryKindToName fromDeviation toDeviation TypeKindFromName TypeKindToName BaseTypedefs baseTypes
+//@ init_only Int8Range Int16Range Int32Range Int64Range Uint8Range Uint16Range Uint32Range Uint64Range revisionDateSuffixRegex
